@@ -177,7 +177,7 @@ func c13Worker(w *W) {
 	defer func() { log.VerifPointFn = nil }()
 
 	mk := func() *log.RollingFileAppender {
-		return &log.RollingFileAppender{AppenderBase: log.AppenderBase{Name: "roll"}, Layout: &log.TextLayout{}, FileDir: dir, FileName: fname, Rotation: log.TimeRotation{Interval: interval}, MaxAge: 24}
+		return &log.RollingFileAppender{AppenderBase: log.AppenderBase{Name: "roll"}, Layout: &log.TextLayout{}, FileDir: dir, FileName: fname, Rotation: log.TimeRotation{Interval: interval}, MaxAge: int32(w.ArgInt("maxage", 24))}
 	}
 	var mu sync.Mutex
 	var recs []c13rec
@@ -477,6 +477,14 @@ func init() {
 			add("stalledwriter", 2, 1, "plain", 4)
 			add("stalledrotator", 2, 1, "plain", 5)
 			add("dst", 1, 1, "plain", 5)
+			// local zones far from UTC with a retention of 1-2 hours: the retention scan that follows every rotation works on
+			// names written in local time and must not touch the files being written
+			for i, z := range []string{"America/Los_Angeles", "Pacific/Kiritimati", "Pacific/Pago_Pago"} {
+				add("continuous", 2, 1, "plain", nb)
+				specs[len(specs)-1].Name += "-tz" + fmt.Sprint(i)
+				specs[len(specs)-1].Env = []string{"TZ=" + z}
+				specs[len(specs)-1].Args["maxage"] = []string{"2", "1", "3"}[i]
+			}
 			if !d.Quick() {
 				add("continuous", 16, 1, "plain", 10)
 				add("continuous", 2, 2, "plain", 4)
